@@ -48,6 +48,9 @@ BUILT["C18"] = ("Lean 4 lemmas on one labelled list: index = iteration (incl. ne
 BUILT["C19"] = ("Lean 4 decision-logic theorems (accept <-> exactly the required shape; viewport halves: 2-element array/list/tuple; viewport parameter; coupled arrays (n,3); event refusals; accepted => encoded length = field width) + exhaustive enumeration of shapes rank 0-3 / extents 0-4 x dtypes and non-arrays against all 25 validated constructor arguments",
             "Proof over the model for all argument kinds and shapes; the real constructors are enumerated exhaustively over the finite shape space the property names, comparing accept/refuse with the model and checking nBytes = bytes written for every accepted object.",
             NOTE + " Acceptance is modelled as a function of kind and shape only.", "DESIGN.md §6 C19")
+BUILT["C20"] = ("Lean 4 separation theorems on an object-store model (fresh allocation by every constructor/decode call, edits touch one cell only, instance_independent over any interleaving, a block built without items is empty whatever happened before, decode twice = two independent instances) + seeded interleavings over 2-4 real instances of seven block classes",
+            "Proof over the store model; real instances are created (with/without own item lists), decoded twice, edited and encoded in seeded interleavings, and after every step the items (by identity) and encoding of every instance are compared with the model.",
+            NOTE + " This property is about CPython object identity; the store model is only as good as the correspondence.", "DESIGN.md §6 C20")
 CONT = "Lean 4 refinement proof: byte-level L0 model of add/remove/replace/setters (seek/write/truncate) simulates the list-of-blocks spec on every well-formed layout (add_sim, remove_sim, run_sim by induction over histories, any table length); "
 BUILT.update({
     "C03": (CONT + "corollary wfB(image)=true; + seeded history correspondence with Lean's wfB judging the real bytes after every call",
